@@ -265,6 +265,10 @@ def parse_rvalue(s):
         ops = []
         if rest.startswith('('):
             ops = [parse_operand(p) for p in split_top(rest[1:-1]) if p]
+        elif rest.startswith('{'):
+            # captures printed by name: {closure@..} { ss: move _11, n: copy _3 }
+            for part in split_top(rest[1:-1].strip()):
+                if part: ops.append(parse_operand(part.split(': ', 1)[1]))
         return ('closure', s[:j + 1], ops)
     # ADT aggregates:  Path::Variant(ops) | Path::Variant | Path { f: op, .. } | Path
     if s.endswith('}') and ' { ' in s:
